@@ -22,6 +22,13 @@ CHECKS = {
         "Only leaf values are observed (padding is not a live value); stack adjacency of locals is whatever the code generator chooses, adjacency is forced by the field and element placements; globals are immutable in Capy and are not a write target.",
         "§4 C02",
     ),
+    "C10": (
+        "progmc c10",
+        "bounded-exhaustive enumeration of (container form, element type, length, access kind, index type, index value) and (sum type, placement, held variant, requested variant) cases, each compiled by the real CLI and executed in its own process, against a reference model of in-range access and of the abort behaviour",
+        "10 container forms (array, slice, ^array, ^mut array, ^^array, slice in a struct field, ^slice, outer and inner level of a nested array, array in a struct field) x 4 element types (u8, i32, i64, 12-byte struct) x lengths 1..4 x read / write / compound assignment / ^mut of the element x runtime indexes (through an opaque function) of type u8/u16/u32/u64/usize/u128 with values 0..n+4 and the type's boundaries 2^k-1, 2^k (u128: 2^64+k) (quick: full index alphabet for i32 x n=3, usize boundaries elsewhere; thorough: full product) and literal indexes 0..n+1; 12 sum types (enums with/without payloads and custom discriminants, optionals, ?^i32, error unions) x 5 placements x every (held, requested) pair for #unwrap incl. the 1-argument form. In range: exactly that element is read/written (whole container, the aliased array and guards printed afterwards). Out of range / wrong variant: the sentinel before the access is printed, then the message, wait status = exit 1 (not a signal), the sentinel after it never appears. Literal index >= n on a fixed array: rejected at compile time.",
+        "The out-of-range access itself cannot be observed after exit; clean exit 1 for every huge index (2^31 .. 2^128-1) is what shows no wild access happened first. Arrays of zero-sized elements are not generated.",
+        "§4 C10",
+    ),
     "C22": (
         "capy-verif lex-mc",
         "bounded-exhaustive input enumeration against invariants (every string <= k over token-class alphabets, every <= 3-word sequence) on the real lexer",
